@@ -609,7 +609,9 @@ func TestZZVerifNative(t *testing.T) {
 		for k := 1; k < in.Repeat && len(outs[i].Failed) == 0 && outs[i].Panic == ""; k++ {
 			outs[i] = verif.RunNative(&verif.Input{Vals: in.Vals}, f)
 		}
+		verif.CleanupTempDirs()
 	}
+	verif.CleanupTempDirs()
 	ob, _ := json.Marshal(outs)
 	if err := os.WriteFile(os.Getenv("HCVERIF_OUTPUTS"), ob, 0644); err != nil {
 		t.Fatal(err)
